@@ -1,3 +1,5 @@
 module gsextract
 
 go 1.19
+
+require github.com/yuin/gopher-lua v1.1.0
